@@ -149,6 +149,21 @@ def exercise(ctx):
                     want = {"routing_id": "items/i9", (f"dep.{word}" if pos == "dep-routing-explicit" else word): "items/i9"}
                     if hp is None or dict(hp[1]) != want:
                         V("routing-key", f"{kind} routing header {hp[0] if hp else None!r}, expected {want}")
+        if pos == "rest-required-query":
+            from ..model import to_json_name
+            r = Req(plain="items/i1")
+            for given in (False, True):
+                if given:
+                    setattr(r, word, "val")
+                c = rest_call(request=to_python(ctx, P + "FrobRequest", r))
+                if c is None:
+                    continue
+                q = dict(urllib.parse.parse_qsl(c["query"], keep_blank_values=True))
+                q.pop("$alt", None)
+                want = {to_json_name(word): "val" if given else ""}
+                if q != want:
+                    V("required-query-name", f"REST query {c['query']!r} for the REQUIRED field {'set' if given else 'left at its default'}: "
+                      f"expected exactly {want} (the JSON name of the proto field)")
         if pos == "dep-routing-twin":
             for mi, rname in ((0, "FrobRequest"), (1, "ProbeRequest")):
                 m = svc["methods"][mi]
